@@ -1097,6 +1097,10 @@ def boundary_cases(rng):
                          ys=list(range(7))[::-1] if rng.random() < 0.5 else list(range(7))))
     g = gen_layout(rng, rng.randint(2, 5), rng.randint(2, 5), 'sparse')
     out.append(base_case(g, layout='max_distance-zero', max_distance=0.0, md_int=rng.random() < 0.5))
+    # 0 requested as a target value on a raster of zeros: every cell is a target
+    h, w = rng.randint(2, 5), rng.randint(2, 5)
+    out.append(base_case([[0] * w for _ in range(h)], layout='all-zero-zero-is-target', tv=[0.0], mode='target_values',
+                         dtype=rng.choice(['float64', 'int32', 'uint8']), max_distance=rng.choice(['inf', 1.0])))
     return out
 
 
@@ -1119,6 +1123,17 @@ def dask_stream_cases(rng):
         c['chunks'] = [small(h) if cy == 1 else [h - h // 2, h // 2], small(w) if cx == 1 else [w - w // 2, w // 2]]
         c['only'] = [['proximity', 'allocation'], ['proximity', 'direction'], ['allocation', 'direction']][i]
         out.append(c)
+    # 0 among target_values, pixel coordinates from arange (origin at cell (0,0)), finite max_distance below the diagonal:
+    # whatever fills the halo outside the raster must not be taken for a target
+    h, w = rng.randint(5, 8), rng.randint(5, 8)
+    g = [[rng.randint(1, 9) for _ in range(w)] for _ in range(h)]
+    for _ in range(rng.randint(1, 3)):
+        g[rng.randint(h // 2, h - 1)][rng.randint(w // 2, w - 1)] = 0
+    c = base_case(g, layout='dask-zero-is-target', tv=[0.0], mode='target_values', dtype=rng.choice(['float64', 'int32']),
+                  max_distance=rng.choice([1.0, 1.5, 2.0]), xkind='dask', ykind='dask')
+    c['chunks'] = [[h - h // 2, h // 2], [w // 2, w - w // 2]]
+    c['only'] = ['proximity', 'allocation']
+    out.append(c)
     return out
 
 
@@ -1169,6 +1184,30 @@ def odd_coordinate_cases(rng):
     return out
 
 
+def gc_box_cases(rng):
+    """GREAT_CIRCLE with unbounded max_distance on boxes whose corner-to-corner great-circle distance is NOT the largest
+    cell-to-cell distance (high latitudes, wide longitude spans, a near-global band): no cell may be NaN"""
+    out = []
+    boxes = [([55, 60, 65, 70, 75, 80], [0, 20, 40, 60, 80, 100, 120]),
+             ([-10, -5, 0, 5, 10], [-170, -130, -90, -50, -10, 30, 70, 110, 150, 170]),
+             ([60, 70, 80], [-150, -100, -50, 0, 50, 100, 150])]
+    for i in range(2):
+        ys, xs = boxes[(i + rng.randrange(3)) % 3]
+        if rng.random() < 0.5:
+            ys = ys[::-1]
+        h, w = len(ys), len(xs)
+        g = [[0] * w for _ in range(h)]
+        # one target on the row nearest the equator, at a longitude end (the far end of that row is beyond the diagonal)
+        r0 = min(range(h), key=lambda r: abs(ys[r]))
+        g[r0][rng.choice([0, w - 1])] = rng.randint(1, 9)
+        if i == 1 and rng.random() < 0.5:
+            g[rng.randrange(h)][rng.randrange(w)] = rng.randint(1, 9)
+        out.append(dict(fn='numpy3', layout='gc-box', metric='GREAT_CIRCLE', data=[[float(v) for v in row] for row in g],
+                        dtype='float64', xs=xs, ys=ys, cdtype='float64', ykind='gc', xkind='gc', tv=[], mode='default',
+                        max_distance=[None, 'inf'][i]))
+    return out
+
+
 def canon_impl(res):
     """worker result -> ({name: grid}, {name: error})"""
     grids, errs = {}, {}
@@ -1196,10 +1235,10 @@ def build_cases(ctx, n_main, n_small, n_gc):
     rng = ctx.rng
     cases = [dict(FIXTURE), dict(FIXTURE, max_distance=2.0), dict(FIXTURE, metric='MANHATTAN', max_distance=3.0),
              dict(WITNESS), dir0_case()] + hard_cases() + precision_cases(rng) + boundary_cases(rng) + \
-        odd_coordinate_cases(rng)
+        odd_coordinate_cases(rng) + gc_box_cases(rng)
     # the named streams are repeated in the larger tiers (one round in quick)
     for _ in range(max(0, n_main // 40 - 1)):
-        cases += precision_cases(rng) + boundary_cases(rng) + odd_coordinate_cases(rng)
+        cases += precision_cases(rng) + boundary_cases(rng) + odd_coordinate_cases(rng) + gc_box_cases(rng)
     for i in range(n_main):
         cases.append(gen_case(rng, i))
     for i in range(n_small):
@@ -1281,7 +1320,7 @@ def run_all(ctx, cases, rounds):
 
 def run(ctx):
     if ctx.quick():
-        cases = build_cases(ctx, 14, 3, 3)
+        cases = build_cases(ctx, 12, 3, 2)
         run_all(ctx, cases, 1)
     else:
         cases = build_cases(ctx, 420, 120, 60)
